@@ -53,7 +53,6 @@ NOT_APPLICABLE = {
     "C03": "Quantifies over thread interleavings of GraphEngine publication steps; Kani/CBMC-for-Rust has no thread model and the engine (Arc/RwLock/HashMap/file I/O) cannot be encoded; a hand-sequentialised model would not be the real code.",
     "C06": "Read path is Arc<Vec<Arc<L0Run>>> + BTreeMap/HashSet overlay iterators; heap containers with symbolic contents did not terminate under Kani and there is no small kernel to cut out.",
     "C07": "The behaviour is architectural (WriteTxn::set_vector touches the live HNSW index); observing 'no trace' needs engine + HNSW + reopen, none encodable within reach.",
-    "C08": "Needs I/O faults injected through WriteTxn::commit (WAL, idmap, pager, publication): Kani cannot hold the function (HashMap memtable, io::Error); path-wise MIR execution of its 531 blocks did not finish in 15 min.",
     "C09": "Lost updates arise from a schedule between db.snapshot() and begin_write() across threads; no thread model in the available solvers' front ends, and the C API path includes parser+planner+executor.",
     "C10": "About OS-level exclusion between handles/processes; there is no locking code to encode and no process model in the tools.",
     "C11": "Requires parser -> planner -> streaming executor -> evaluator on symbolic graphs/queries; one evaluator call already exceeds 3000 s / 13 GB under Kani.",
@@ -416,6 +415,28 @@ PROPS["C02"] = {
                   "in log order with their own ops, an unfinished bracket never leaks ops, well-bracketed logs never fail.",
     "level_note": "Trusted: rustc MIR dump, E2 translator and container models, z3. Oracle: the bracket parser in vf/e2/targets/c02.py.",
     "design_ref": "DESIGN.md section 3, C02",
+}
+
+PROPS["C08"] = {
+    "title": "Failed commits are all-or-nothing",
+    "kani": [],
+    "e2": ["commit"],
+    "functions_encoded": ["engine::WriteTxn::commit"],
+    "bounds": {"transaction": "one created node with an extra label plus one indexed property SET on an existing node (every phase of commit is active); ids symbolic",
+               "faults": "exactly one failure, at any of: each log append (BeginTx ... CommitTx), the log fsync, the index-catalog flush, each node-table update"},
+    "stubs": ["Wal::append / Wal::fsync / IndexCatalog::flush / IdMap::apply_* succeed or fail (forked); BTree::{load, insert, delete, root}, publish_run, "
+              "update_published_node_labels, next_txid are event recorders; snapshot / label / catalog lookups return symbolic ids"],
+    "assumptions": ["an I/O failure surfaces as Err from the failing call (no partial writes inside one call)"],
+    "outside_claim": ["what is on disk after the failure and after reopen (torn log tails are C17, replay is C01/C02)", "failures inside compaction and close",
+                      "a partially applied node table (reachable only through internal lookups by external id; no query observes it)",
+                      "set_len / page-write failures inside the B-tree and node-table kernels (they are recorders here)"],
+    "level_text": "Partial (in-process visibility after a failed commit): path-wise symbolic execution of the real WriteTxn::commit with a single I/O "
+                  "failure injected at every log / index-catalog / node-table step: whenever commit reports an error nothing is published "
+                  "(run, labels, transaction id). Known finding: the index B-tree is rewritten before the CommitTx record is written and synced, "
+                  "so a commit that fails at the log leaves its index entries visible to index lookups of the running process.",
+    "level_note": "Trusted: rustc MIR dump, E2 translator and recorder models. The control flow of commit is concrete once the recorders are in place: "
+                  "the verdict is the executor's exhaustive path enumeration (queries: 0-2), replayed natively with an fdatasync fault shim.",
+    "design_ref": "DESIGN.md section 7.6 (C08)",
 }
 
 PROPS["C32"] = {
